@@ -111,6 +111,46 @@ def shared_tables_arm(c):
         asked += res.get("counters", {}).get("needs_table_calls", 0)
     if not asked:
         c.errors.append("the neighbour arm never saw a NeedsTable call (vacuous)")
+    # scale-out with a surviving worker: the operator is first restored alone from a checkpoint, then deployed again in
+    # the same process next to a new neighbour that lives "in another process" (alias spelling); it compacts the shared
+    # table away and drops the checkpoint - the ownership question of that moment (with the neighbour) must decide
+    scns = []
+    for count in ((3, 256) if q else (3, 6, 256, 40000)):
+        for n2 in ((2,) if q else (2, 3)):
+            s = c06.Scn(count, c06.spread(count, 3), 1, "major")
+            for k in (1, 2, 3):
+                s.put(k)
+            s.put_flush(1)
+            s.put_flush(1)
+            s.ckpt([1])
+            s.deploy(1, "major")                      # restored alone (the surviving Operator object, or a fresh one)
+            s.put(1)
+            s.ckpt([1])
+            s.deploy(n2, "major")                     # scale-out: the survivor + new operators
+            if not s.keys_of(1):
+                continue
+            s.put_flush(s.keys_of(1)[0])
+            s.put_flush(s.keys_of(1)[0])              # the survivor compacts the shared table away
+            s.ckpt(list(range(n2, 0, -1)))
+            s.resume()
+            s.put(s.keys_of(1)[0])
+            s.ckpt(list(range(1, n2 + 1)))
+            s.resume()
+            s.nn = n2
+            scns.append(s.finish())
+    behs, results = c06.elaborate(c, scns, "scale-out next to a survivor", invariants=c06.INVS)
+    for r in results:
+        if r.violated or r.error:
+            c.errors.append("a scale-out scenario violates %s in the model (%s)\n%s" % (r.violated, r.error, r.out[-1500:]))
+    if not any(b is not None for b in behs):
+        c.errors.append("no scale-out scenario could be elaborated (vacuous)")
+    for n2 in sorted({sc.nn for sc, b in zip(scns, behs) if b is not None}):
+        bs = [b for sc, b in zip(scns, behs) if b is not None and sc.nn == n2]
+        payload = dict(property="C09", seed=c.seed, config=dict(MemSize=4096, Chunk=15, GC=True, Reuse=True, AliasOps=list(range(1, n2))), behaviours=bs)
+        res = vlib.run_harness("rescale", payload, timeout=3000)
+        c.add_harness(res, payload, "scale-out 1 -> %d: surviving operator redeployed next to new operators 'in another process' (%d scenarios)" % (n2, len(bs)))
+        if not res.get("violations") and not res.get("counters", {}).get("needs_table_calls"):
+            c.errors.append("the scale-out arm never saw a NeedsTable call (vacuous)")
     # the running operators themselves are deployed again from their own checkpoint (a job that re-assembles with
     # surviving workers): same Operator objects, same directories; a garbage collection is forced in the middle of
     # HandleDeploy (neighbour factory call) - the files of the checkpoint being loaded must survive whatever the
